@@ -133,6 +133,9 @@ class ImportJK(taps.Monitor):
         jacks, name, idl = token
         n = len(jacks) - 1
         ctx.count('import_jk_judged')
+        # the samples the caller holds are still the exported ones after the import (a second import of the same array must restore the same observable)
+        now = [float(v) for v in (kwargs['jacks'] if 'jacks' in kwargs else args[0])]
+        ctx.equal(bool(np.array_equal(now, jacks, equal_nan=True)), True, 'import_jackknife:samples-array-modified-by-import', 'argument after the call', detail={'before': jacks[:6], 'after': now[:6]})
         if not ctx.require(list(result.names) == [name] and result.N == n, 'import_jackknife:chain-name-or-length', lambda: {'names': result.names, 'N': result.N}):
             return
         ctx.close(result.value, jacks[0], 'import_jackknife:value-not-entry0', 'value', rtol=0.0, atol=0.0)
@@ -173,6 +176,10 @@ class ImportBS(taps.Monitor):
                 ctx.count('import_bs_not_judged')
             return
         ctx.count('import_bs_judged')
+        now = [float(v) for v in (kwargs['boots'] if 'boots' in kwargs else args[0])]
+        ctx.equal(bool(np.array_equal(now, boots, equal_nan=True)), True, 'import_bootstrap:samples-array-modified-by-import', 'argument after the call', detail={'before': boots[:6], 'after': now[:6]})
+        tnow = np.array(kwargs['random_numbers'] if 'random_numbers' in kwargs else args[2])
+        ctx.equal(bool(tnow.shape == table.shape and np.array_equal(tnow, table)), True, 'import_bootstrap:table-modified-by-import', 'argument after the call')
         if k < n or len(boots) - 1 != k:
             ctx.ev()
             ctx.violation('import_bootstrap:accepted-fewer-samples-than-configurations' if k < n else 'import_bootstrap:accepted-inconsistent-shapes',
@@ -500,8 +507,13 @@ def case_bs_import(ctx, idx, rng):
     ctx.cell('import_bs', 'samples==configurations' if k == n else 'samples>configurations')
     ti, form = table_form(rng, np.asarray(t), arrays_only=True)
     ctx.cell('import_table', form)
+    handed = array_view(rng, bs)
     try:
-        imp = PE.import_bootstrap(array_view(rng, bs), name, ti)
+        imp = PE.import_bootstrap(handed, name, ti)
+        if idx % 2 == 0:
+            # the same exported array imported a second time restores the same observable
+            ctx.count('import_bs_second_import_of_the_same_array')
+            imp = PE.import_bootstrap(handed, name, ti)
     except REJECT as e:
         ctx.ev()
         ctx.violation('import_bootstrap:rejects-a-determined-table', {'N': n, 'samples': k, 'rank': rank, 'exception': repr(e)})
